@@ -1,9 +1,13 @@
 #!/bin/bash
-# seed_matrix.sh [tier] — runs every registered check against every seeded change (one at a time,
+# seed_matrix.sh [tier [shard nshards]] — runs every registered check against every seeded change (one at a time,
 # applied to /repo's working tree and undone straight afterwards) and writes $ROOT/seeded/MATRIX.md.
-# Takes about an hour at the quick tier; /repo must be clean and must not be used meanwhile.
+# Takes several hours at the quick tier (2.5 - 4 minutes per change); /repo must be clean and must not be used
+# meanwhile. With "shard nshards" only every nshards-th change (starting at shard) is run and the rows go to
+# seeded/MATRIX.<tier>.<shard>.txt: run the shards from separate snapshots (vp run --with-repo), concatenate the
+# row files into seeded/MATRIX.<tier>.txt and call "seed_matrix.sh <tier> merge" to write MATRIX.md.
 set -u
 tier="${1:-quick}"
+shard="${2:-}"; nshards="${3:-1}"
 ROOT="$(cd "$(dirname "$0")/.." && pwd)"
 cd "$ROOT"
 if [ -n "${VP_RUN_REPO:-}" ]; then
@@ -14,12 +18,21 @@ if [ -n "${VP_RUN_REPO:-}" ]; then
 fi
 checks=$(python3 -c "import json;print(' '.join(c['property_id'] for c in json.load(open('MANIFEST.json'))['checks']))" 2>/dev/null || echo C01 C02 C03 C04 C05 C06 C07 C08 C09 C10 C11 C12 C13 C14 C15 C16 C17 C18 C19 C20)
 out=$ROOT/seeded/MATRIX.$tier.txt
-: > "$out"
-for d in $ROOT/seeded/*/; do
-  name=$(basename "$d")
-  [ -f "$d/patch.diff" ] || continue
-  tools/seed_run.sh "$name" "$tier" $checks 2>&1 | grep " exit=" >> "$out"
-done
+if [ "$shard" != "merge" ]; then
+  [ -n "$shard" ] && out=$ROOT/seeded/MATRIX.$tier.$shard.txt
+  : > "$out"
+  k=0
+  for d in $ROOT/seeded/*/; do
+    name=$(basename "$d")
+    [ -f "$d/patch.diff" ] || continue
+    grep -q '"superseded"' "$d/meta.json" 2>/dev/null && continue
+    k=$((k+1))
+    if [ -n "$shard" ] && [ $((k % nshards)) -ne "$shard" ]; then continue; fi
+    tools/seed_run.sh "$name" "$tier" $checks 2>&1 | grep " exit=" >> "$out"
+  done
+  echo "repo commit: $(git -C "${VERIF_REPO:-/repo}" log --oneline -1)" >> "$out.commit"
+  [ -n "$shard" ] && exit 0
+fi
 python3 - "$out" "$tier" "$ROOT" <<'EOF'
 import sys,collections
 rows=collections.OrderedDict(); checks=[]
